@@ -396,6 +396,18 @@ Section ParamP.
     build o e1 (freeze e c) = build o e2 (freeze e c) /\ build o e1 (freeze e c) = build o e c.
   Proof. rewrite <- !(live_binding e _ c). split; reflexivity. Qed.
 
+  (* freezing is idempotent: a frozen copy of a frozen copy is the frozen copy, whatever
+     environment the second freeze is taken in; a circuit without references is its own
+     frozen copy *)
+  Theorem freeze_no_ref_circ e (c : circ) : no_ref_circ c = true -> freeze e c = c.
+  Proof.
+    intros H. unfold freeze, copy_circ. rewrite freeze_spec_no_ref by exact H.
+    destruct c; reflexivity.
+  Qed.
+
+  Theorem freeze_idem e e' (c : circ) : freeze e' (freeze e c) = freeze e c.
+  Proof. apply freeze_no_ref_circ, no_ref_circ_freeze. Qed.
+
   (* ================= 4. get_all_params ================= *)
   Lemma add_new_in acc l i : In i (add_new acc l) <-> In i acc \/ In i l.
   Proof.
